@@ -288,27 +288,34 @@ def monitor(case, ilog):
 
 
 def run_impl(ctx, impl, cases, tag, max_hangs=4):
-    """run the harness over the cases; a hanging case ends the process ("endcase hang"): re-run the rest"""
+    """run the harness over the cases; a hanging case ends the process ("endcase hang") and a crash of the code
+    under test kills it: the case is recorded ("hang" / "crash") and the rest is re-run"""
     ilog = {}
     rest = list(cases)
-    hangs = 0
+    bad = 0
     while rest:
         cf = os.path.join(ctx.work, tag + "_impl.txt")
         conc_check.write_cases(cf, rest)
         rc, out = vcheck.sh([impl, cf], timeout=900)
         il = conc_check.parse_logs(out)
-        ilog.update(il)
         done = 0
         for k, c in enumerate(rest):
-            if c["id"] in il:
+            e = il.get(c["id"])
+            if e is not None and e["end"] is not None:
+                ilog[c["id"]] = e
                 done = k + 1
-        if done == 0:
-            break
-        last = il.get(rest[done - 1]["id"])
+        last = ilog.get(rest[done - 1]["id"]) if done > 0 else None
         if last is not None and last["end"] == "hang":
-            hangs += 1
-            if hangs >= max_hangs:
-                break
+            bad += 1
+        elif done < len(rest):
+            # the process died inside case rest[done] (abort / segmentation fault / timeout of the whole run)
+            c = rest[done]
+            part = il.get(c["id"])
+            ilog[c["id"]] = {"lines": part["lines"] if part else [], "end": "crash", "extra": [], "rc": rc, "output_tail": out[-600:]}
+            done += 1
+            bad += 1
+        if bad >= max_hangs:
+            break
         rest = rest[done:]
     return ilog
 
@@ -321,6 +328,7 @@ def run_batch(ctx, model, impl, cases, tag):
 
 
 WHAT_LIN = "history of the real VyukovMPMCCycleQueue is not linearizable to a bounded FIFO of the configured capacity (bounded-FIFO linearizability monitor on the implementation log, items drained at quiescence included)"
+WHAT_CRASH = "the harness process running the real VyukovMPMCCycleQueue died (abort / fault) on this program and schedule"
 WHAT_HANG = "an operation of the real VyukovMPMCCycleQueue does not return within 20000 scheduled steps of a fair (round-robin) schedule; the model terminates on the same program and schedule"
 
 
@@ -331,6 +339,8 @@ def impl_bad(case, i, m=None):
     bad = monitor(case, i)
     if bad is not None:
         return (WHAT_LIN, bad)
+    if i["end"] == "crash":
+        return (WHAT_CRASH, {"exit_status": i.get("rc"), "output_tail": i.get("output_tail")})
     if i["end"] in ("hang", "fuel") and (m is None or m["end"] == "finished"):
         return (WHAT_HANG, {"impl_end": i["end"], "pending": [l for l in i["lines"] if " ev inv_" in l][-4:]})
     return None
@@ -339,7 +349,7 @@ def impl_bad(case, i, m=None):
 def minimise(ctx, impl, case, tag, what):
     """greedy: drop operations / shorten the schedule while the oracle still rejects the implementation run"""
     best = case
-    budget = 6 if what == WHAT_HANG else 25
+    budget = 6 if what in (WHAT_HANG, WHAT_CRASH) else 25
     improved = True
     while improved and budget > 0:
         improved = False
